@@ -7,6 +7,7 @@ summary (A4, after the validated-index / forall-guard / guard-subsumption discha
 non-empty is either a listed infeasible case (spec/invariants.json), a listed known finding, or a
 violation."""
 import json
+import re
 import os
 from facts import AnalysisBroken, VERIF, CALL_KINDS
 from result import Result
@@ -67,6 +68,31 @@ def guard_subsumed(prog, f, call, cls):
         if ths and iv is not None and cv is not None and g.dominates(iv, cv):
             mine.append(Rf.render(n['cond']))
     return all(cg in mine for cg in callee_guards)
+
+
+def group_name_stored_as_given(prog):
+    """every store to Group::_name (constructors, name setter) assigns the unmodified argument and nothing
+    modifies _name in place"""
+    import p_c18 as _c18
+    G_ = 'ezc3d::ParametersNS::GroupNS::Group'
+    E = FX.get(prog)
+    for f, nid, rhs in _c18.field_writes(prog, G_, '_name'):
+        if f.implicit or f.qname.endswith('::read'):
+            continue
+        if rhs is None:
+            return False
+        r = Renderer(f).render(rhs)
+        if not re.match(r'^arg\d+$', r) and r != 'arg0._name':
+            return False
+    for f in prog.repo_funcs():
+        if f.cls != G_ or f.qname.endswith('::read') or f.implicit:
+            continue
+        for n in f.calls():
+            if n['callee'].get('qname') in ('ezc3d::removeTrailingSpaces',) or n['callee'].get('name') in ('erase', 'resize', 'pop_back', 'append', 'operator+='):
+                for a in list(f.call_args(n)) + ([f.call_obj(n)] if f.call_obj(n) is not None else []):
+                    if Renderer(f).render(a) == 'this._name':
+                        return False
+    return True
 
 
 def run(prog, tier):
@@ -136,6 +162,12 @@ def run(prog, tier):
                 res.ok('validate-then-mutate', inst + ': ' + key, f.loc(n['id']), 'callee guard already tested by a dominating guard of the caller', function=f.sig, expr=key)
                 continue
             ent = [i for i in inv if i['function'] == f.qname and i['callee'] == cq and set(i['classes']) >= left]
+            if ent and ent[0].get('check') == 'group-name-stored-as-given' and not group_name_stored_as_given(prog):
+                res.viol('validate-then-mutate', inst + ': ' + key, f.loc(n['id']),
+                         'call of %s may throw %s after the group was created: the look-up uses the caller\'s name but Group no longer stores the name as given (it is transformed on the way in), '
+                         'so a name that the transformation changes is not found again' % (cq, sorted(left)), function=f.sig, expr=key)
+                problems += 1
+                continue
             if ent:
                 res.ok('validate-then-mutate', inst + ': ' + key, f.loc(n['id']), 'listed infeasible: ' + ent[0]['reason'], function=f.sig, expr=key, nontrivial=False)
                 continue
